@@ -1,7 +1,7 @@
 // F2: computed types (keyof / indexed access / mapped / conditional / utility types) over a pool of
 // operand types × key arguments. Only combinations the reference can normalise (i.e. that are valid
 // TypeScript with a pinned-down meaning) are emitted.
-import { P, L, U, I, ObjT, Prop, Rec, Tup, ArrT, Ref, Param, Alias, Iface, Enum, EnumMember } from "./spec.mjs";
+import { P, L, U, I, ObjT, Prop, Rec, Tup, ArrT, Ref, Param, Alias, Iface, Enum, EnumMember, Tpl, H } from "./spec.mjs";
 import { Prog } from "./ref.mjs";
 import { norm, Unsupported } from "./normalise.mjs";
 
@@ -21,6 +21,9 @@ export function f2Decls() {
     Iface("I1", ObjT([Prop("e", P("boolean"))]), [Ref("O1")]),
     Alias("T1", Tup([P("string"), P("number")])),
     Alias("A1", ArrT(P("string"))),
+    Alias("ON", ObjT([Prop("a", P("string")), Prop("b", P("string"))], [{ key: P("number"), val: P("boolean") }])),
+    Alias("OS", ObjT([Prop("a", P("string"))], [{ key: P("string"), val: P("string") }])),
+    Alias("RN", Rec(P("number"), P("boolean"))),
     Alias("TR1", Tup([P("string")], P("number"))),
     Alias("TR2", Tup([P("string"), P("boolean")], P("number"))),
     Alias("TR0", Tup([], P("number"))),
@@ -43,6 +46,9 @@ export function f2Types() {
   const keyArgs = [L("a"), L("b"), U(L("a"), L("b")), L("c"), U(L("a"), L("c")), L("e"), L("v"), L("n")];
   const out = [];
   for (const o of [...objs, Ref("RS"), U(Ref("O1"), Ref("O2"))]) out.push(Keyof(o));
+  // declared members next to an index signature (number / string keys), unions and intersections of such objects
+  for (const o of [Ref("ON"), Ref("OS"), Ref("RN"), U(Ref("ON"), ObjT([Prop("a", P("string")), Prop("b", P("number"))])), I(ObjT([Prop("a", P("string"))]), Ref("RN")), I(Ref("ON"), Ref("O1"))]) out.push(Keyof(o));
+  out.push(Index(Ref("ON"), L("a")), Index(Ref("ON"), P("number")), Index(Ref("RN"), P("number")), Index(Ref("OS"), L("a")), Index(Ref("OS"), P("string")));
   for (const o of objs) for (const k of keyArgs) out.push(Index(o, k));
   out.push(Index(Ref("RS"), P("string")), Index(Ref("T1"), L(0)), Index(Ref("T1"), L(1)), Index(Ref("T1"), P("number")), Index(Ref("A1"), P("number")));
   // every literal position around the prefix/rest boundary of tuples with a rest element, unions of positions
@@ -77,6 +83,9 @@ export function f2Types() {
     for (const b of [L("a"), U(L("a"), L("b")), P("string"), P("null"), P("number"), L(1), P("boolean"), L(true), U(P("string"), P("null"))]) {
       out.push(Util("Exclude", u, b));
     }
+  // template literals that survive a semantic computation (the remainder is materialised from the semantic type)
+  for (const t of [Tpl("a", H("number")), Tpl("a", H("string")), Tpl(H("number"), "px"), Tpl("x-", H("string"), "-y"), Tpl(H("boolean"))])
+    for (const [other, removed] of [[L(1), L(1)], [P("number"), P("number")], [P("null"), P("null")], [U(L(1), P("boolean")), P("boolean")]]) out.push(Util("Exclude", U(t, other), removed));
   out.push(Ref("ElemOf", [Ref("A1")]), Ref("ElemOf", [Ref("T1")]));
   out.push(Util("Exclude", Keyof(Ref("O3")), L("a")), Util("Pick", Ref("O3"), Util("Exclude", Keyof(Ref("O3")), L("a"))));
   out.push(Ref("Wrap", [Keyof(Ref("O1"))]), ArrT(Util("Partial", Ref("O1"))), ObjT([Prop("x", Util("Pick", Ref("O1"), L("a"))), Prop("y", Index(Ref("O1"), L("b")), true)]));
